@@ -345,7 +345,7 @@ Proof.
   assert (Hhp : forall h dl, chpend d h dl <-> chpend c h dl) by (intros; unfold chpend; rewrite q_cont0; tauto).
   assert (Hpb : forall x, cpend_bit d x <-> cpend_bit c x) by (intros; unfold cpend_bit; rewrite q_cont0, q_acc0; tauto).
   assert (Hwf : forall i, wfinstr d i <-> wfinstr c i).
-  { intros [k| | | | | | | | | | | | |]; simpl; try tauto. destruct k; simpl; rewrite ?Hreg; tauto. }
+  { intros [k| | | | | | | | | | | | | |]; simpl; try tauto. destruct k; simpl; rewrite ?Hreg; tauto. }
   constructor.
   - intros h Hh. rewrite <- q_new0 in Hh. destruct (i_new0 h Hh) as [A|[x [A B]]].
     + left. apply Hhp; auto.
